@@ -417,7 +417,7 @@ Proof.
     2:{ unfold raw_lookup. rewrite HP0. unfold st1. rewrite part_set_row_same. apply sm_get_put_same. }
     eexists. split; [reflexivity|].
     set (st3 := set_row st2 (pkey k 0) ccol_state (mkRow (VState s1) (ins_exp k now dur))).
-    unfold read_blob, query_state, get.
+    unfold read_blob, read_blob_gen, query_state, get.
     rewrite (alive_lookup now' st3 (pkey k 0) ccol_state (VState s1) _ Al) by apply raw_lookup_set_same.
     cbn [option_map rval bs_err s1].
     assert (HB3 : buckets_from k now' st3 1 reads).
@@ -525,7 +525,7 @@ Proof.
     rewrite (upd_ok k now dur st2 (pkey k 0) ccol_state (VState s0) (VState s1)) in H
       by (unfold raw_lookup in *; rewrite P2; exact R1).
     inversion H; subst st' r. clear H.
-    unfold read_blob, query_state, get, lookup. rewrite raw_lookup_set_same.
+    unfold read_blob, read_blob_gen, query_state, get, lookup. rewrite raw_lookup_set_same.
     destruct (expired now' _); cbn [option_map rval].
     + destruct (read now' _ (pkey k 1) [] []); eexists; reflexivity.
     + cbn. eexists; reflexivity.
